@@ -619,7 +619,31 @@ pub fn gen_project(rng: &mut Rng, o: &ProjectOpts) -> Project {
     }
     let plugins = if r_cfg.chance(1, 5) { vec!["nitrogql:model-plugin".to_string()] } else { vec![] };
     // (plugins extend an SDL schema; an introspection result cannot carry their directives)
-    let plugins = if introspection { vec![] } else { plugins };
+    let plugins = if introspection || no_config { vec![] } else { plugins };
+    let mut plugins = plugins;
+    if !plugins.is_empty() {
+        let mut r_pl = rng.fork("plugins");
+        // the other built-in plugin next to it (it only acts on schemas given as JavaScript modules)
+        if r_pl.chance(1, 3) {
+            plugins.insert(r_pl.below(2), "nitrogql:graphql-scalars-plugin".to_string());
+        }
+        // use the model plugin's directive: on whole objects (with a type) or on single fields
+        let roots = [Some(schema.query.clone()), schema.mutation.clone(), schema.subscription.clone()];
+        for t in schema.types.iter_mut().filter(|t| t.kind == Kind::Object && !roots.contains(&Some(t.name.clone()))) {
+            match r_pl.below(4) {
+                0 if t.directive.is_none() => t.directive = Some("model:object".into()),
+                1 => {
+                    let head = t.fields.len() - t.ext_tail.min(t.fields.len());
+                    for f in t.fields.iter_mut().take(head) {
+                        if f.directive.is_none() && r_pl.chance(1, 3) {
+                            f.directive = Some("model".into());
+                        }
+                    }
+                }
+                _ => {}
+            }
+        }
+    }
 
     let mut extra_files = Vec::new();
     if r_lay.chance(1, 3) {
